@@ -188,6 +188,48 @@ def _recorder_model(ctx: Ctx, c, init: FunctionInfo, reg: FunctionInfo) -> None:
                         bad.setdefault("extractor", (f"column Phenotype holds {cell!r}, not the registered individual's phenotype", scen))
                     elif col == "Extra" and cell != Sym("EXTRAFN()"):
                         bad.setdefault("extractor", (f"column Extra holds {cell!r}, not the value of the extra field's callback", scen))
+    # ---- two recorders in one process: the second one's columns do not depend on the first one's configuration
+    it = Interp(prog, c, lambda *_: None, call_model, max_depth=5, max_traces=16)
+    it.sym_result = lambda fv, a: Sym(fv.tag + "()")
+    it.prelude_same_object = False
+
+    def init_env(extra, tag):
+        env0 = {"self": Sym(tag)}
+        a = init.node.args
+        names = [x.arg for x in a.posonlyargs + a.args + a.kwonlyargs][1:]
+        defaults = dict(zip([x.arg for x in a.args][len(a.args) - len(a.defaults):], a.defaults))
+        for p_ in names:
+            if "only" in p_:
+                env0[p_] = False
+            elif p_ == "extra_fields":
+                env0[p_] = dict(extra) if extra else None
+            elif p_ == "fields":
+                env0[p_] = None
+            elif p_ == "problem":
+                env0[p_] = Sym("problem")
+            elif p_ in defaults:
+                env0[p_] = it.ev(defaults[p_], {}, 0)
+            else:
+                env0[p_] = Sym(p_)
+        return env0
+
+    try:
+        runs2 = it.run(init, init_env(None, "self2"), prelude=(init, init_env({"Extra": Sym("EXTRAFN")}, "self")))
+        for trace, rv, notes in runs2:
+            if any(e.kind == "raise" for e in trace):
+                continue
+            second = [e for e in trace[it.prelude_len:] if e.kind == "call" and e.name == "writerow"]
+            if len(second) == 1 and isinstance(second[0].args[0], list):
+                hdr2 = second[0].args[0]
+                if "Extra" in hdr2 or len([x for x in hdr2 if isinstance(x, str) and x.startswith("Fitness")]) != 3:
+                    bad.setdefault("header", (f"a second recorder created without extra fields (after one with the extra field 'Extra') writes the header "
+                                              f"{hdr2!r}: the default column table is shared between recorder objects and keeps the first one's columns",
+                                              {"first": "extra_fields={'Extra': ...}", "second": "defaults"}))
+            else:
+                und = und or "header of a second recorder not followed"
+    except Budget:
+        und = und or "too many interpretations (two recorders)"
+
     for key, rule, desc in (("flush", "C20.R2", "every row written is followed by a flush of the log file"),
                             ("header", "C20.R3", "the header is the list of columns of the field mapping (default and extra fields), written once"),
                             ("rows", "C20.R3", "every row has one cell per header column"),
@@ -361,6 +403,14 @@ def run(ctx: Ctx) -> None:
         ctx.ob("C20.R7", ev, ev.node, f"{c.name}: every evaluated individual is registered with every recorder exactly once (all comparison outcomes)",
                False if bad else (None if und else True), bad or und or "")
     ctx.floor("C20.R7", n7, 2, "tracker evaluate implementations")
+    # ---- R8: the is_best flag the recorders gate on is 'first or strictly better than the current best' (C12's tracker model)
+    ctx.rule("C20.R8", "the is_best flag handed to the recorders is true exactly for the first individual and for strict improvements")
+    from .c12 import rule_r1_multi, rule_r1_single
+    before = len(ctx.obligations)
+    rule_r1_single(ctx)
+    rule_r1_multi(ctx)
+    for o in ctx.obligations[before:]:
+        o.rule = "C20.R8"
     ctx.assumptions += [
         "csv.writer.writerow assembles the whole record before a single write() on the file object (CPython _csv)",
         "atomicity of one flushed write with respect to a kill inside write(2) is not decided (OS behaviour)",
